@@ -259,8 +259,9 @@ Lemma fmp4_processSegment_inv : forall p c el seg counts,
 Proof.
   intros p c el seg counts Hok Hl Hc. unfold fmp4_processSegment.
   destruct (fg_parts seg) as [parts|]; [|split; [reflexivity|discriminate]].
-  destruct (findFirstPartTrackOfLeadingTrack parts (f_leadingTrackID p)) as [lpt|] eqn:FF;
-    [|split; [reflexivity|discriminate]].
+  destruct (findFirstPartTrackOfLeadingTrack parts (f_leadingTrackID p)) as [lpt|] eqn:FF.
+  2:{ destruct (parts_empty parts && _); [|split; [reflexivity|discriminate]].
+      split; [reflexivity|]. intros p' c' counts' E. injection E as <- <- <-. auto. }
   pose proof (findFirst_id _ _ _ FF) as Hlid.
   (* after the optional initialization: p1, c1 with all invariants and processors present *)
   assert (A : exists r, (match f_procs p with
@@ -315,7 +316,7 @@ Lemma fmp4_processSegment_noof : forall p c el seg counts,
 Proof.
   intros. unfold fmp4_processSegment.
   destruct (fg_parts seg) as [parts|]; auto.
-  destruct (findFirstPartTrackOfLeadingTrack _ _) as [lpt|]; auto.
+  destruct (findFirstPartTrackOfLeadingTrack _ _) as [lpt|]; [|destruct (parts_empty parts && _); auto].
   apply bind_noof.
   - destruct (f_procs p); auto. apply fmp4_init_noof.
   - intros [p1 c1] _. apply bind_noof; [apply deref_noof|]. intros procs _.
